@@ -5,6 +5,7 @@ import itertools
 
 import bvsym as sx
 from bvsym import core
+from .envpatch import EnvPatch
 from .common import (FakeOs, FakeSock, KeySource, Obligation, cover, decode_client_frames, new_ws, quiet_logging,
                      server_frame)
 
@@ -250,8 +251,8 @@ def s_hand(shape, ncuts):
         cuts.append(c - 3)
         lo = c
     keys = [sx.sym_bytes("k1_%d" % i, 4) for i in range(3)]
-    real_os = HS.os._real if isinstance(HS.os, FakeOs) else HS.os
-    HS.os = FakeOs(real_os, lambda k: bytes(range(k)))
+    ep = EnvPatch()
+    ep.urandom(lambda k: bytes(range(k)))
     try:
         s0 = FakeSock([stream, "eof"])
         w0 = new_ws(s0, get_mask_key=KeySource(list(keys)), skip_utf8_validation=True)
@@ -270,7 +271,7 @@ def s_hand(shape, ncuts):
         sx.require(s1.wire() == s0.wire(), "automatic replies identical", shape=shape)
         cover("hand")
     finally:
-        HS.os = real_os
+        ep.restore()
 
 
 def obligations(tier):
